@@ -28,8 +28,10 @@ def header_table(facts, out):
     if hfn is None:
         return {}
     hfn = H.inlined_fn(facts, hfn, depth=2)      # the name table may live in a private helper
-    from kt import _match_table
+    from kt import _match_table, _lookup_table
     tab = _match_table(hfn)
+    if not any(isinstance(k, str) for k in tab):
+        tab = _lookup_table(facts, hfn)       # a constant table of (name, section) pairs searched by name
     # F2: literal set equals the format's header table, one variant each
     lits = sorted(k for k in tab if isinstance(k, str))
     ok = sorted(FORMAT_HEADERS) == lits
